@@ -540,6 +540,13 @@ func SetRecord(name string, typ recordtype.Type, id byte, data string) {
 	if recBytes == nil {
 		panic("invalid record id")
 	}
+	records := storage.Find(ctx, getRecordsKeyByType(tokenID, name, typ), storage.ValuesOnly|storage.DeserializeValues)
+	for iterator.Next(records) {
+		r := iterator.Value(records).(RecordState)
+		if r.ID != id && r.Data == data {
+			panic("record already exists")
+		}
+	}
 	storeRecord(ctx, tokenID, name, typ, id, data)
 	updateSoaSerial(ctx, tokenID)
 }
